@@ -141,7 +141,7 @@ def scenario(seed, n_msgs, mode, lines):
         undo()
         del TR.TcpConnection._recv_data_stream
     return {"status": status, "sent": sent, "got": got, "taken": taken, "log": log, "blocked": blocked, "excs": excs, "qids": qids,
-            "steps": s.steps, "n_app": n_app}
+            "steps": s.steps, "n_app": n_app, "undelivered_by_network": len(state["chunks"]) + len(sock.inbox) if state.get("cut") else -1}
 
 
 def verdict(res):
@@ -159,6 +159,8 @@ def verdict(res):
     if taken != want_all[:len(taken)]:
         k = next((i for i, (x, y) in enumerate(zip(taken, want_all)) if x != y), min(len(taken), len(want_all)))
         return ("the state machine took the messages off the receive queue in another order than sent", {"position": k})
+    if res["status"] == "maxsteps" and res["undelivered_by_network"] != 0:
+        return None          # the scheduler budget ran out while the network was still delivering: inconclusive, counted by the caller
     if res["status"] != "until":
         if len(got) < len(want_app):
             return ("%d of %d application messages were never delivered (%s)" % (len(want_app) - len(got), len(want_app), res["status"]),
@@ -265,11 +267,15 @@ def explore(chk, rng, n, tag):
         n_msgs = rng.choice([1, 3, 6, 12])
         mode = rng.choice(["bytes", "small", "mixed", "mixed", "big"])
         lines_mode = rng.random() < 0.25
+        if mode == "bytes" and lines_mode:
+            n_msgs = min(n_msgs, 3)                  # one byte per read under line-level hand-over is slow: keep it within the budget
         res = scenario(seed, n_msgs, mode, lines_mode)
         inp = {"op": "inbound", "seed": seed, "messages": n_msgs, "segmentation": mode, "line_level": lines_mode,
                "kinds": "".join("A" if k == "app" else "b" for k, _ in res["sent"])}
         chk.case(inp, kind="%s:%s%s" % (tag, mode, ":lines" if lines_mode else ""))
         v = verdict(res)
+        if res["status"] == "maxsteps" and res["undelivered_by_network"] != 0:
+            chk.count("inconclusive:budget-exhausted-during-delivery")
         if v:
             chk.violation(v[0], inp, "the application receives exactly the application messages sent, once, complete, in order", v[1])
         # the chunk/worker log starts after the CEA: drop the chunk events that belong to it
